@@ -279,6 +279,27 @@ def fault_files(td: Path) -> list[tuple[str, list[str]]]:
     sc.append(("enable-all-verbose", [w("ver.py", body.encode()), "--enable-all", "--verbose"]))
     sc.append(("mypy-arg-bad", [w("ma.py", body.encode()), "--", "--no-such-mypy-flag"]))
     sc.append(("sort-error", [w("se.py", body.encode()), "--sort", "error"]))
+    # every output format on files named in every way: absolute elsewhere, through `..`, through a symbolic link, inside a folder argument
+    import os
+    other = td.parent / (td.name + "-elsewhere")
+    other.mkdir(exist_ok=True)
+    (other / "mod.py").write_bytes(body.encode())
+    try:
+        os.symlink(other / "mod.py", td / "link_out.py")
+    except OSError:
+        pass
+    for fmt in ("text", "github"):
+        sc.append((f"{fmt}-format-file-elsewhere", [str(other / "mod.py"), "--format", fmt]))
+        sc.append((f"{fmt}-format-relative-parent", [os.path.join("..", other.name, "mod.py"), "--format", fmt]))
+        sc.append((f"{fmt}-format-symlink-out", [str(td / "link_out.py"), "--format", fmt]))
+        sc.append((f"{fmt}-format-folder", [str(td / "pkg"), "--format", fmt, "--sort", "error"]))
+        sc.append((f"{fmt}-format-error-lines-only", [str(td / "does_not_exist.py"), "--format", fmt]))
+        sc.append((f"{fmt}-format-explain", ["--explain", "FURB123", "--format", fmt]))
+    sc.append(("explain-unknown-code", ["--explain", "FURB999"]))
+    sc.append(("explain-three-letter-prefix", ["--explain", "XYZ100"]))
+    sc.append(("verbose-disable-all", [w("vd.py", body.encode()), "--verbose", "--disable-all"]))
+    sc.append(("quiet-and-verbose", [w("qv.py", body.encode()), "--quiet", "--verbose", "--enable-all"]))
+    sc.append(("no-color-env", [w("nc.py", body.encode())]))
     return sc
 
 
@@ -332,7 +353,7 @@ def run(ctx: Ctx) -> None:
     try:
         # 1. single-run fault scenarios through the real CLI
         for name, args in fault_files(td):
-            rc, out, err = L.cli(args)
+            rc, out, err = L.cli(args, cwd=str(td))
             ok = L.clean_verdict(rc, out, err)
             ctx.case(("fault", name), sample={"scenario": name, "rc": rc, "first": (out + err).strip().splitlines()[:1]})
             ctx.count("fault-scenarios")
@@ -374,6 +395,7 @@ def run(ctx: Ctx) -> None:
         ctx.samples.append({"mutant_example": Path(muts[0]).read_text()[:300] if muts else ""})
     finally:
         shutil.rmtree(td, ignore_errors=True)
+        shutil.rmtree(str(td) + "-elsewhere", ignore_errors=True)
     ctx.resolve_broken({"dispatch_total": "crash:", "traverse_no_exn": "crash:", "no_none_deref": "crash:", "main_routes_every_exception": "crash:",
                         "translate exception routing (driver modules)": "crash:"},
                        b.first_error if b else "")
